@@ -109,6 +109,10 @@ class PolicyOracle:
         self.cur = {'node': node.name, 'acq': acq, 'snap': snap_node(node, timers=False) if node.state == 'running' and node.controller else None,
                     'est_peers': {str(sa.peer_addr) for sa in node.ike_sas() if 10 <= int(sa.state) < 20},   # established, maybe busy
                     'any_peers': {str(sa.peer_addr) for sa in node.ike_sas()},
+                    'idle_peers': {str(sa.peer_addr) for sa in node.ike_sas() if sa.state.name == 'ESTABLISHED' and not sa.pending_events},
+                    'busy_peers': {str(sa.peer_addr) for sa in node.ike_sas() if sa.state.name.endswith('_REQ_SENT') and 10 < int(sa.state) < 20
+                                   and sa.state.name not in ('DEL_IKE_SA_REQ_SENT', 'DEL_AFTER_REKEY_IKE_SA_REQ_SENT')}
+                    | {str(sa.peer_addr) for sa in node.ike_sas() if sa.state.name in ('INIT_REQ_SENT', 'AUTH_REQ_SENT')},
                     'sent0': len(self.wire.by_sender.get(node.name, [])), 'req0': node.kernel.req_no,
                     'others_readable': any(s.queue for s in node.udp.values()),
                     'timer': timers_due(node) if node.state == 'running' and node.controller else False}
@@ -256,6 +260,17 @@ class PolicyOracle:
                 if wrong and len(cur['acq']) == 1 and not cur['others_readable']:
                     return self.viol('acquire_negotiated_with_wrong_peer', {}, f'{N}: ACQUIRE for policy index {idx} (peer {conn["peer_addr"]}) '
                                                                               f'made it send a request to {wrong[0]["dst"]}')
+                # (another IKE_SA with that peer that is established or being established by us and has a request outstanding may legitimately
+                #  take the ACQUIRE and queue it until its response arrives)
+                if (str(conn['peer_addr']) in cur['idle_peers'] and str(conn['peer_addr']) not in cur['busy_peers'] and len(cur['acq']) == 1 and not cur['others_readable'] and not cur['timer']
+                        and node.kernel.inject == {} and not any(x['dst'] == str(conn['peer_addr']) and x['h']['exch'] == 36 for x in reqs)):
+                    # an idle established IKE_SA with that peer exists (whatever else is in the table: a replaced one waiting for its DELETE,
+                    # a half-open one): the ACQUIRE is negotiated on it now, not queued somewhere it will never be looked at
+                    return self.viol('acquire_not_negotiated_on_idle_ike_sa', {}, f'{N}: ACQUIRE for index {idx} (peer {conn["peer_addr"]}) while an idle '
+                                     f'ESTABLISHED IKE_SA with that peer exists, yet no CREATE_CHILD_SA request was sent in that iteration; table '
+                                     f'{[(sa.state.name, len(sa.pending_events)) for sa in node.ike_sas()]}')
+                if str(conn['peer_addr']) in cur['idle_peers']:
+                    self._r('acquire_on_idle_ike_sa_checked')
                 if str(conn['peer_addr']) in cur['est_peers']:
                     self._r('acquire_reused_ike_sa')
                     # (a fresh IKE_SA_INIT, not the retransmission timer of an older half-open initiator IKE_SA firing in the same iteration)
@@ -385,7 +400,37 @@ def generate(seed, tier):
     ops.sort(key=lambda x: (x['t'], 0 if x.get('before_start') else 1))
     if r.random() < 0.2:
         _halfopen_batch(sc, r)
+    elif r.random() < 0.15:
+        _rekey_window_batch(sc, r)
     return sc
+
+
+def _rekey_window_batch(sc, r):
+    """Batch 'rekey_window' (same clause): lossless; B rekeys the IKE_SA (short lifetime on its side only); the instant A has answered the
+    rekey - its table then holds the replaced IKE_SA, waiting for B's DELETE, in front of the idle successor - A's kernel sees traffic for
+    another protect entry.  The ACQUIRE must be negotiated at once on the successor."""
+    ca = next(iter(sc['nodes']['A']['conf'].values()))
+    cb = next(iter(sc['nodes']['B']['conf'].values()))
+    ra = next(iter(configs.read_conf(sc['nodes']['A']['conf']).values()))
+    if len(ra['protect']) < 2:
+        return
+    ca['lifetime'], cb['lifetime'] = 10000, r.choice([6, 8, 12])
+    ca['dpd'] = cb['dpd'] = 600
+    for c in (ca, cb):
+        for p in c['protect']:
+            p['lifetime'] = 600
+    flow1 = configs.flow_for_entry(r, ra['my_addr'], ra['peer_addr'], ra['protect'][0])
+    flow2 = configs.flow_for_entry(r, ra['my_addr'], ra['peer_addr'], ra['protect'][1])
+    sc['ops'] = [{'t': 0.0, 'op': 'start', 'node': 'A'}, {'t': 0.05, 'op': 'start', 'node': 'B'},
+                 {'t': 1.0, 'op': 'packet', 'node': 'A', 'flow': flow1}]
+    sc['acquire_after_rekey_answer'] = {'flow': flow2, 'delay': r.choice([0.0, 0.001, 0.004]), 'drop_delete': r.random() < 0.5}
+    sc['fates'] = {}
+    sc['fate_policy'] = {'mode': 'deliver'}
+    sc['until'] = float(cb['lifetime'] + 5 + 12)
+    sc['quiet_from'] = sc['until']
+    sc['meta']['batch'] = 'rekey_window'
+    sc['meta']['faults'] = []
+    sc.pop('probe_flow', None)
 
 
 def _halfopen_batch(sc, r):
@@ -548,6 +593,24 @@ def run(scenario):
                      f'unprotected ({why}) and B has not sent a single IKE_SA_INIT / CREATE_CHILD_SA request since; IKE_SAs at B (state, role, CHILD_SAs, queued events): {table}')
         ctx['handlers'] = {'preload': preload, 'reconf': reconf, 'mark_stale': mark_stale, 'foreign_acquire': foreign_acquire, 'probe': probe,
                            'spoof_init': spoof_init, 'acq_probe': acq_probe}
+        aw = scenario.get('acquire_after_rekey_answer')
+        if aw:
+            class RekeyWindow:
+                fired = False
+
+                def on_wire(self, meta, data):
+                    h = parse_header(data)
+                    if self.fired or h is None or meta['sender'] != 'A' or h['exch'] != 36 or not h['R']:
+                        return
+                    # A answers a CREATE_CHILD_SA request of B: with these configurations that is B's IKE_SA rekey
+                    self.fired = True
+                    orc._r('rekey_window.acquire_fired')
+                    w.after(aw['delay'], lambda: w.packet('A', aw['flow']), 'rekey_window.packet')
+                    if aw.get('drop_delete'):
+                        # B's DELETE of the replaced IKE_SA is lost once: the window lasts until its retransmission
+                        nxt = w.net.sent.get('B', 0) + 1
+                        w.decisions.explicit[f'B#{nxt}'] = {'fate': 'drop'}
+            w.net.taps.append(RekeyWindow())
 
     def at_end(w, ctx):
         pr = ctx['probes']
@@ -582,7 +645,7 @@ def run(scenario):
         else:
             reach['probe_unserved_also_without_restarts'] = 1
     restarts = sum(1 for o in scenario['ops'] if o['op'] == 'restart')
-    st = workload.base_stats(w, ctx['cov'], {'reach': reach, 'nontrivial': (restarts > 0 or bool(reach.get('halfopen.acquire_probed')))
+    st = workload.base_stats(w, ctx['cov'], {'reach': reach, 'nontrivial': (restarts > 0 or bool(reach.get('halfopen.acquire_probed')) or bool(reach.get('rekey_window.acquire_fired')))
                                              and bool(reach.get('acquire_mapped'))})
     if scenario.get('seed', 0) % 67 == 0 or w.violations:
         st['sample'] = {'seed': scenario.get('seed'), 'meta': scenario.get('meta'),
